@@ -37,6 +37,10 @@ HARNESSES = [
  _r('aadd_axis_dtype8', 'view::accumulate_add(a uint32, axis, dtype=uint8): running fold in the narrower dtype'),
  _r('radd_axis_dtype8', 'view::reduce_add(a uint32, axis, dtype=uint8)', quick=[], thorough=[_c(2), _c(3, _timeout=3600)]),
  _r('radd_axis_dtype_init', 'view::reduce_add(a uint8, axis, dtype=uint32, initial)', quick=[], thorough=[_c(2), _c(3, _timeout=3600)]),
+ _r('radd_none_dtype_init_keep', 'view::reduce_add(a uint8, None, dtype=uint32, initial, keepdims True): every optional argument at once on the axis=None specialisation; shape per-query constant', quick=_shapes(2)[-2:], thorough=_shapes(2)),
+ _r('radd_none_dtype_init', 'same with keepdims False (a number)', quick=_shapes(2)[-1:], thorough=_shapes(2)),
+ _r('radd_none_dtype_keep', 'same without initial, keepdims True', quick=_shapes(2)[-1:], thorough=_shapes(2)),
+ _r('radd_axis_dtype_init_keep', 'view::reduce_add(a uint8, axis, dtype=uint32, initial, keepdims True)', quick=[], thorough=[_c(2), _c(3, _timeout=3600)]),
  _r('radd_none_dtype', 'view::reduce_add(a uint8, None, dtype=uint32): a number', quick=_shapes(2)[-1:], thorough=_shapes(2)),
  # ---- thorough tier only (symbolic shapes, measured 125..720 s each at extents <= 2 on the loaded machine)
  _r('rsub_axis_init', 'reduce_subtract(a, axis, None, initial)', quick=[], thorough=[_c(2), _c(3, _timeout=3600)]),
